@@ -126,6 +126,10 @@ pub enum Error {
     #[error(transparent)]
     #[diagnostic(transparent)]
     InvalidOptionalOutput(#[from] OptionalOutputError),
+
+    #[error("tx {tx} cannot be lowered: {reason}")]
+    #[diagnostic(code(tx3::not_lowerable))]
+    NotLowerable { tx: String, reason: String },
 }
 
 impl Error {
@@ -1468,7 +1472,23 @@ impl Analyzable for Program {
 /// # Returns
 /// * `AnalyzeReport` of the analysis. Empty if no errors are found.
 pub fn analyze(ast: &mut Program) -> AnalyzeReport {
-    ast.analyze(None)
+    let mut report = ast.analyze(None);
+
+    // name resolution alone does not see every mistake that makes a transaction impossible to
+    // lower (a record field missing without a spread, a malformed literal, a directive lacking a
+    // required field...): a program is only accepted if each of its transactions lowers
+    if report.is_empty() {
+        for tx in ast.txs.iter() {
+            if let Err(err) = crate::lowering::lower_tx(tx) {
+                report.errors.push(Error::NotLowerable {
+                    tx: tx.name.value.clone(),
+                    reason: err.to_string(),
+                });
+            }
+        }
+    }
+
+    report
 }
 
 #[cfg(test)]
